@@ -417,10 +417,6 @@ package node
 // by-alias route: the alias may name a meta process of p (then the message goes to the meta's own
 // main queue and the meta is woken) or p itself (same clauses as the by-id route, incl. fallback)
 //@ ghostheap mwoken(m *meta) int
-//@ func (m *meta) handle
-//@   trusted
-//@   modifies mwoken(m)
-//@   ensures mwoken(m) == old(mwoken(m)) + 1
 //@ iface gen.Connection.SendAlias
 //@ spec func aliasesWF(n *node) bool = forall k any :: smHas(n.aliases, k) ==> typeis(smVal(n.aliases, k), *process) && smVal(n.aliases, k).(*process) != nil && mailboxWF(smVal(n.aliases, k).(*process)) && (forall a any :: smHas(smVal(n.aliases, k).(*process).metas, a) ==> typeis(smVal(smVal(n.aliases, k).(*process).metas, a), *meta) && smVal(smVal(n.aliases, k).(*process).metas, a).(*meta) != nil && smVal(smVal(n.aliases, k).(*process).metas, a).(*meta).main != nil)
 //@ spec func procByAlias(n *node, a gen.Alias) *process = smVal(n.aliases, any(a)).(*process)
@@ -917,3 +913,86 @@ package node
 //@   at call stop assert [applications_are_stopped_gracefully] force == false
 //@   at call NetworkStop assert [network_goes_down_only_after_the_wait_for_the_processes] caller_force || wgWaits(n.waitprocesses) == old(wgWaits(n.waitprocesses)) + 1
 //@   ensures [graceful_stop_waits_for_the_processes] old(n.creation) > 0 && !force ==> wgWaits(n.waitprocesses) == old(wgWaits(n.waitprocesses)) + 1
+
+// ---------------------------------------------------------------------------------------------
+// C01 / C05 for meta processes: the meta state word as a rely/guarantee protocol. States: 0 fresh
+// (allocated, start() has not run yet), Sleep 1, Running 2, Terminated 4. Ghosts: mown(m) the
+// goroutine holding the handler token (the only one allowed to call HandleMessage / HandleCall /
+// HandleInspect), mfin(m) the goroutine whose swap turned the word to Terminated first (the only one
+// allowed to call Terminate), mstarter(m) the start goroutine (the only one allowed to leave 'fresh').
+// The Start callback is the meta process's own main loop and by design runs beside the handler.
+//@ ghostheap mown(m *meta) int
+//@ ghostheap mfin(m *meta) int
+//@ ghostheap mstarter(m *meta) int
+//@ spec func msInv(s int32, o int, f int, st int) bool = (s == 0 || s == 1 || s == 2 || s == 4) && (s == 2 ==> o != 0) && (s == 0 || s == 1 ==> o == 0) && (f != 0 <==> s == 4)
+//@ spec func msGuar(me int, s int32, o int, f int, st int, s2 int32, o2 int, f2 int, st2 int) bool = (s2 == s && o2 == o && f2 == f && st2 == st) || (s == 0 && st == me && s2 == 1 && o2 == 0 && f2 == f && st2 == st) || (s == 1 && s2 == 2 && o2 != 0 && f2 == f && st2 == st) || (o == me && s == 2 && s2 == 1 && o2 == 0 && f2 == f && st2 == st) || (s != 4 && (s != 0 || st == me) && s2 == 4 && f == 0 && f2 == me && o2 == o && st2 == st)
+//@ spec func msRely(me int, s int32, o int, f int, st int, s2 int32, o2 int, f2 int, st2 int) bool = (o == me ==> o2 == me && (s2 == s || s2 == 4)) && (o != me ==> o2 != me) && (f == me ==> f2 == me) && (f != me ==> f2 != me) && (f != 0 ==> f2 != 0) && (st == me ==> st2 == me) && (st == me && s == 0 ==> s2 == 0) && (s == 4 ==> s2 == 4)
+//@ protocol metaState field meta.state ghosts mown mfin mstarter inv msInv rely msRely guar msGuar
+
+//@ lemma metaState_rely_covers_guarantee props C01 C05: forall me, t int, s, s2 int32, o, f, st, o2, f2, st2 int :: t != me && t != 0 && me != 0 && msInv(s, o, f, st) && msInv(s2, o2, f2, st2) && msGuar(t, s, o, f, st, s2, o2, f2, st2) && !(s == 1 && s2 == 2 && o2 == me) && (st == me ==> st != t) ==> msRely(me, s, o, f, st, s2, o2, f2, st2)
+//@ lemma metaState_callbacks_exclusive props C01 C05: forall a, b int, s int32, o, f, st int :: msInv(s, o, f, st) && a != b && a != 0 && b != 0 ==> !(o == a && o == b) && !(f == a && f == b)
+
+//@ iface gen.MetaBehavior.HandleMessage
+//@ iface gen.MetaBehavior.HandleCall
+//@ iface gen.MetaBehavior.HandleInspect
+//@ iface gen.MetaBehavior.Terminate
+//@ iface gen.MetaBehavior.Start
+//@ func (l *log) setSource
+//@   trusted
+//@ func createLog
+//@   trusted
+//@   ensures result != nil
+//@ func lib.NewQueueMPSC
+//@   trusted
+//@   ensures result != nil
+//@ func lib.NewQueueLimitMPSC
+//@   trusted
+//@   ensures result != nil
+//@ func (m *meta) init
+//@   trusted
+
+// the goroutine that runs the meta process's main loop (Start) and finalises it when Start returns
+//@ func (m *meta) start
+//@   props C01 C05
+//@   no_safety
+//@   protocol metaState at m
+//@   requires [fresh_and_mine] m != nil && m.state == 0 && mstarter(m) == me && mown(m) == 0 && mfin(m) == 0
+//@   assume [tables] m.p != nil && m.p.node != nil && tablesWF(m.p.node)
+//@   at atomic 2 ghost mfin = (result != 4 && mfin(m) == 0 ? me : mfin(m))
+//@   at call Terminate assert [finaliser_only_after_the_last_handler_callback] mfin(m) == me && (mown(m) == 0 || mown(m) == me)
+
+// a sender's wake-up: the CAS Sleep->Running is the only gate that may start the handler goroutine
+//@ func (m *meta) handle
+//@   props C01 C05
+//@   no_safety
+//@   no_frame
+//@   protocol metaState at m
+//@   modifies mwoken(m), m.state, mown(m)
+//@   ensures_ghost mwoken(m) == old(mwoken(m)) + 1
+//@   at atomic 1 ghost mown = (result ? child : mown(m))
+
+// the handler goroutine: holds the token from the start; every handler callback is made while holding it
+//@ func (m *meta) handle$1
+//@   props C01 C05
+//@   no_safety
+//@   may_panic
+//@   protocol metaState at m
+//@   requires [holds_token] m != nil && mown(m) == me
+//@   assume [tables] m.p != nil && m.p.node != nil && tablesWF(m.p.node)
+//@   loop 1 invariant [still_owner] mown(m) == me && m.p != nil && m.p.node != nil && tablesWF(m.p.node)
+//@   loop 1 invariant [own_message] message == nil || !withWorker(message)
+//@   at call HandleMessage assert [exclusive] mown(m) == me
+//@   at call HandleCall assert [exclusive] mown(m) == me
+//@   at call HandleInspect assert [exclusive] mown(m) == me
+//@   at call Terminate assert [finaliser_only_after_the_last_handler_callback] mfin(m) == me && (mown(m) == 0 || mown(m) == me)
+//@   at atomic 2 ghost mfin = (result != 4 && mfin(m) == 0 ? me : mfin(m))
+//@   at atomic 3 ghost mown = (result ? 0 : mown(m))
+//@   at atomic 4 ghost mown = (result ? me : mown(m))
+
+// SpawnMeta publishes the fresh meta process and starts its goroutine; it does not touch the word
+//@ func (p *process) SpawnMeta
+//@   props C01 C05
+//@   no_safety
+//@   no_frame
+//@   requires p.node != nil && p.log != nil
+//@   at go ghost mstarter = child
